@@ -357,14 +357,13 @@ class BaseAccumulator:
         raise NotImplementedError()
 
     def intercept(self, element, varname, category, tentative):
-        if tentative is ABSENT:
-            # A variable that is only declared has no value yet: it is left
-            # out of the captures, like any variable that is not set
-            return self._call_with_snapshot(element, self._intercept)
         cap = Capture(element)
         self.captures[element.capture] = cap
         cap.names.append(varname)
-        cap.set(varname, tentative)
+        if tentative is not ABSENT:
+            # (a variable that is only declared has no value yet: its capture
+            # gives its name, and no value)
+            cap.set(varname, tentative)
         rval = self._call_with_snapshot(element, self._intercept)
         del self.captures[element.capture]
         return rval
